@@ -231,6 +231,42 @@ export async function run(ctx) {
           }
         }
   }
+  // enum members whose initialiser mentions other declarations of the enum's OWN module (another
+  // enum's member, a constant, a template over a constant, an earlier member), referenced one member
+  // at a time from another module - which may declare the same names with other values
+  if (ctx.shard === 7 % ctx.of) {
+    const lib = 'export const PREFIX = "pre" as const;\nexport enum Color { Red = "red", Blue = "blue" }\nexport enum Alias { Primary = Color.Red, Second = PREFIX, Fourth = Alias.Primary, Lit = "lit" }\n';
+    const want = { Primary: "red", Second: "pre", Fourth: "red", Lit: "lit" };
+    const shadows = ["", 'const PREFIX = "entry-pre" as const;\nenum Color { Red = "entry-red" }\n', 'type PREFIX = 1;\n'];
+    const styles = [
+      ["named", 'import { Alias } from "./lib";\n', (m) => `Alias.${m}`],
+      ["renamed", 'import { Alias as Al } from "./lib";\n', (m) => `Al.${m}`],
+      ["namespace", 'import * as ns from "./lib";\n', (m) => `ns.Alias.${m}`],
+      ["typeof", 'import { Alias } from "./lib";\n', (m) => `typeof Alias.${m}`],
+      ["reexported", 'import { Alias } from "./mid";\n', (m) => `Alias.${m}`],
+      ["import-type", "", (m) => `import("./lib").Alias.${m}`],
+    ];
+    for (const [sn, imp, use] of styles)
+      for (let si = 0; si < shadows.length; si++) {
+        const files = { "lib.ts": lib, "mid.ts": 'export { Alias } from "./lib";\n', "entry.ts": `${imp}${shadows[si]}export const Parsers = parse.buildParsers<{ ${Object.keys(want).map((m) => `${m}: ${use(m)}`).join("; ")} }>();\n` };
+        const b = await compileFiles(ctx, files);
+        ctx.judged();
+        ctx.count("enum_member_grid");
+        const id = `${sn}/shadow${si}`;
+        const where = { kind: "split", single: "", files, collision: null };
+        if (!b.parsers) {
+          ctx.violation({ signature: `split-project-rejected|enum-member-initialiser|${variantOf(b.res)}|${id}`, clause: "outcome-differs", detail: `${id}: ${JSON.stringify(b.res.diagnostics?.[0]?.message ?? b.res.outcome)}`, replay: where });
+          continue;
+        }
+        for (const [m, v] of Object.entries(want)) {
+          const ok = b.parsers[m].validate(v) === true && ["entry-red", "entry-pre", "entry-pre-x", "x", 1].every((o) => b.parsers[m].validate(o) === false);
+          if (!ok) {
+            ctx.violation({ signature: `enum-member-bound-in-the-wrong-module|${id}|${m}`, clause: "validators-differ", detail: `${id}: ${m} should accept exactly ${JSON.stringify(v)}`, replay: where });
+            break;
+          }
+        }
+      }
+  }
   // chains of value aliases, one link per file, every file laid out identically (equal offsets, equal
   // identifier lengths): whatever identifies an expression or a declaration must include its file
   if (ctx.shard === 6 % ctx.of) {
